@@ -264,3 +264,12 @@ claim(
     "abstract interpretation over a stencil / indicator domain against a CPML substitution oracle; polynomial identities for the coefficients; decision tables for depth profiles and configuration wiring",
     "DESIGN.md §5 C12",
 )
+
+claim(
+    "C13",
+    "other",
+    "Narrow: the radiated power ratio (1e-3, Gaussian 10 %) is a runtime quantity and is not decided. Decided are the clauses a one-directional total-field/scattered-field plane rests on: for every propagation axis, both directions, forward and inverse update and every material tier, TFSFPlaneSource.update_E / update_H add at the plane cell exactly -s c inv_material K inc, K being the coefficient with which the plane-cell sample enters the normal-axis difference of the repo's own curl_H / curl_E (so the incident contribution cancels behind the plane and completes in front of it), each incident component with its own Yee time offset, quadrature and filtered-profile variants included; calculate_time_offset_yee delays component c at cell p by -(x_c(p) - centre).k/(v dt) with x_c the Yee position forced by the curls' staggering, on the uniform and edge-coordinate paths and both velocity paths; normalize_polarization_for_source / tilted_polarization_vectors return a right-handed triple E x H = k with k = +-e_n for the declared direction whichever of E, H is prescribed (untilted and single-axis tilts of any angle); _source_impedance^2 = inv_eps/inv_mu; every source.update_H call in the solver is evaluated half a step after the source.update_E calls (forward and reverse); LinearlyPolarizedPlaneSource.apply wires e_pol -> E, h_pol / impedance -> H and the same wave vector into the stored time offsets.",
+    TB + "; update normal forms of C01; opaque temporal profile; rational half-angle parametrisation of cos / sin; syntax-tree def-use in apply",
+    "abstract interpretation over a stencil / indicator domain against an oracle derived from the repo's own curl; polynomial identities on concrete planes of free symbols; def-use and call-site rules on the syntax tree",
+    "DESIGN.md §5 C13",
+)
